@@ -46,8 +46,107 @@ def stream_obs(which):
     return obs
 
 
+def bittrick_obs():
+    obs = []
+    for f in ('x2_32', 'x2_64', 'd2_32', 'd2_64'):
+        obs.append(Ob('gf.' + f, 'harness/h_gf.c', 'h_' + f, [], route='dfcc', enforce=f, unwind=10,
+                      functions=[f + ' (raid/gf.h)'], timeout=300, mem=3, cost=1,
+                      note='contract enforced by goto-instrument --dfcc for every argument value'))
+    return obs
+
+
+# ---------------------------------------------------------------- generators (C02)
+KISSAT = ['--external-sat-solver', 'kissat']
+GEN_SRCS = ['raid/int.c', 'raid/intz.c', 'raid/raid.c', 'raid/tables.c']
+GENS = [  # (function, np, chunk bytes, mode, file)
+    ('raid_gen1_int32', 1, 8, 'RAID_MODE_CAUCHY', 'raid/int.c'), ('raid_gen1_int64', 1, 16, 'RAID_MODE_CAUCHY', 'raid/int.c'),
+    ('raid_gen2_int32', 2, 8, 'RAID_MODE_CAUCHY', 'raid/int.c'), ('raid_gen2_int64', 2, 16, 'RAID_MODE_CAUCHY', 'raid/int.c'),
+    ('raid_genz_int32', 3, 8, 'RAID_MODE_VANDERMONDE', 'raid/intz.c'), ('raid_genz_int64', 3, 16, 'RAID_MODE_VANDERMONDE', 'raid/intz.c'),
+    ('raid_gen3_int8', 3, 1, 'RAID_MODE_CAUCHY', 'raid/int.c'), ('raid_gen4_int8', 4, 1, 'RAID_MODE_CAUCHY', 'raid/int.c'),
+    ('raid_gen5_int8', 5, 1, 'RAID_MODE_CAUCHY', 'raid/int.c'), ('raid_gen6_int8', 6, 1, 'RAID_MODE_CAUCHY', 'raid/int.c'),
+]
+
+
+def gen_ob(fn, np_, chunk, mode, file, nd, size, lo=None, hi=None, tier='quick', timeout=900, cost=5, seed=0):
+    defs = {'GEN_FN': fn, 'NP': np_, 'ND': nd, 'SIZE': size, 'MODE': mode}
+    full = lo is None
+    name = 'gen.%s.nd%d.size%d' % (fn[5:], nd, size)
+    if not full:
+        defs.update({'SYM_LO': lo, 'SYM_HI': hi, 'FILL_SEED': 1 + seed % 251})
+        name += '.sym%d-%d' % (lo, hi - 1)
+    return Ob(name, 'harness/h_gen.c', 'h_gen', GEN_SRCS, defs=defs, unwind=max(nd, size, 10) + 9, solver=KISSAT,
+              functions=['%s (%s)' % (fn, file), 'raid_mode (raid/raid.c)'], timeout=timeout, mem=6, cost=cost, tier=tier,
+              kind='proof' if full else 'bounded',
+              bound=None if full else 'contents symbolic on disks %d..%d only, the other disks hold concrete seeded bytes; size = %d bytes' % (lo, hi - 1, size),
+              note='geometry nd=%d np=%d size=%d concrete, every byte of every data and parity block symbolic; loops unwound to the concrete bounds with unwinding assertions (complete for this geometry); size is %d chunk(s) of the implementation' % (nd, np_, size, size // chunk))
+
+
+def gen_obs(tier, seed):
+    obs = []
+    for fn, np_, chunk, mode, file in GENS:
+        int8 = chunk == 1
+        for nd in ((1, 2, 3) if int8 else (1, 2, 4)):
+            heavy = fn in ('raid_gen6_int8', 'raid_gen5_int8') and nd == 3
+            obs.append(gen_ob(fn, np_, chunk, mode, file, nd, chunk, cost=20 if heavy else 5))
+        # two chunks: the outer loop carries no state from one chunk to the next
+        obs.append(gen_ob(fn, np_, chunk, mode, file, 2, 2 * chunk, cost=8))
+        # thorough: larger complete geometries
+        for nd in ((4, 5) if int8 else (8, 12)):
+            obs.append(gen_ob(fn, np_, chunk, mode, file, nd, chunk, tier='thorough', timeout=3000, cost=60))
+        if not int8:
+            # table-free variants: every disk of the largest array, one symbolic disk at a time (bounded, labelled)
+            ks = [0, 1, 31, 32, 33, 127, 128, 249, 250] if tier == 'quick' else list(range(251))
+            rnd = random.Random(seed)
+            ks = sorted(set(ks + [rnd.randrange(251) for _ in range(3)]))
+            for k in ks:
+                obs.append(gen_ob(fn, np_, chunk, mode, file, 251, chunk, lo=k, hi=k + 1, tier='quick' if k in (0, 32, 128, 250) else 'thorough', cost=4, seed=seed))
+        else:
+            for nd, k in ((33, 32), (33, 0), (40, 39)):
+                obs.append(gen_ob(fn, np_, chunk, mode, file, nd, chunk, lo=k, hi=k + 1, tier='thorough', timeout=3000, cost=50, seed=seed))
+    # the dispatcher raid_gen + raid_init binding (portable configuration), np = 1..6 and the alternate mode
+    for np_ in range(1, 7):
+        for mode in (('RAID_MODE_CAUCHY', 'RAID_MODE_VANDERMONDE') if np_ == 3 else ('RAID_MODE_CAUCHY',)):
+            for nd in ((1, 2) if np_ <= 2 or mode == 'RAID_MODE_VANDERMONDE' else (1,)):
+                obs.append(Ob('gen.dispatch.np%d.%s.nd%d' % (np_, 'z' if 'VAND' in mode else 'c', nd), 'harness/h_gen.c', 'h_gen',
+                              GEN_SRCS + ['raid/module.c'], defs={'GEN_VIA_DISPATCH': None, 'NP': np_, 'ND': nd, 'SIZE': 64, 'MODE': mode},
+                              unwind=80, solver=KISSAT, incl_first=['include/noasm'], timeout=1200, mem=8, cost=15,
+                              functions=['raid_gen (raid/raid.c)', 'raid_init (raid/module.c)', 'raid_mode (raid/raid.c)'],
+                              note='raid_gen(nd=%d, np=%d, size=64) through raid_gen_ptr[] as bound by the real raid_init() in the configuration without inline assembly' % (nd, np_)))
+    return obs
+
+
 def c02(tier, seed):
-    return table_obs(tier)
+    return table_obs(tier) + bittrick_obs() + gen_obs(tier, seed)
+
+
+# ---------------------------------------------------------------- split parity (C17)
+def c17(tier, seed):
+    P = 'harness/h_parity.c'
+    pf = lambda *f: [x + ' (cmdline/parity.c)' for x in f]
+    return [
+        Ob('parity.split_find.contract', P, 'h_split_find', route='dfcc', enforce='parity_split_find', unwind=10,
+           functions=pf('parity_split_find'), timeout=600, mem=6, cost=5, small_path=True,
+           note='up to SPLIT_MAX=8 splits, every size vector and offset; loop bounded by SPLIT_MAX, unwound completely'),
+        Ob('parity.split_find.lemma', P, 'h_split_lemma', unwind=10, functions=pf('parity_split_find'), timeout=600, mem=6, cost=5, small_path=True,
+           note='two calls of the real function: injective, monotone, no straddling for block aligned sizes'),
+        Ob('parity.hbit_u64.contract', P, 'h_hbit', route='dfcc', enforce='hbit_u64', unwind=66, functions=pf('hbit_u64'), timeout=600, mem=4, cost=3, small_path=True,
+           note='loop bounded by the operand width (64), unwound completely'),
+        Ob('parity.handle_fill.contract', P, 'h_fill', route='dfcc', enforce='parity_handle_fill', replace=['parity_handle_grow', 'parity_handle_shrink', 'hbit_u64'],
+           loop_contracts=True, unwind=8, functions=pf('parity_handle_fill'), timeout=1500, mem=8, cost=30, small_path=True,
+           inject=[dict(file='cmdline/parity.c', function='parity_handle_fill', loop=0, expect_loops=1, clauses="""
+__CPROVER_assigns(base, delta, g_grow_failed, g_last_grow)
+__CPROVER_loop_invariant(delta >= 0 && base >= 0 && delta <= size && base <= size && (delta & block_mask) == 0 && (base & block_mask) == 0)
+__CPROVER_loop_invariant(base + delta <= size && (g_grow_failed || base + delta == size))
+__CPROVER_loop_invariant(base >= (split->st.st_size & ~block_mask))
+__CPROVER_decreases(delta)
+""")],
+           note='UNBOUNDED: the bit-by-bit grow loop carries an inductive loop contract (invariant + decreases, injected in a scratch copy); parity_handle_grow / parity_handle_shrink / hbit_u64 replaced by their contracts'),
+    ] + [
+        Ob('parity.%s.address.bs2^%d' % (rw, sh), P, 'h_parity_' + rw, unwind=10, defs={'BLOCK_SHIFT': sh}, small_path=True,
+           functions=pf('parity_' + rw, 'parity_split_find'), timeout=900, mem=6, cost=8, tier='quick' if sh in (10, 18, 24) else 'thorough',
+           note='block size 2^%d concrete, position / split sizes / valid sizes symbolic' % sh + ('; read() returns the whole block, an error, EOF, or splits it 1 + (n-2) + 1' if rw == 'read' else ''))
+        for rw in ('write', 'read') for sh in range(10, 25)
+    ]
 
 
 def c09(tier, seed):
@@ -59,6 +158,7 @@ def c10(tier, seed):
 
 
 PROPS = {
+    'C17': dict(level='proof', obligations=c17, explanation='', trusted_base=[], assumptions=[], not_covered=[]),
     'C09': dict(level='other', obligations=c09, explanation='', trusted_base=[], assumptions=[], not_covered=[]),
     'C10': dict(level='other', obligations=c10, explanation='', trusted_base=[], assumptions=[], not_covered=[]),
     'C02': dict(level='proof', obligations=c02,
